@@ -358,6 +358,8 @@ func runC06(c *Ctx) {
 		ruleFieldBeforeUse(c, p, "C06.field-before-use")
 		ruleResetComplete(c, p, "C06.reset-clears")
 		ruleInferNonNil(c, p, "C06.infer-nonnil")
+		ruleChainComplete(c, p, "C06.chain")
+		ruleStringIndexGuard(c, p, "C06.index-guard")
 		ruleInferCache(c, p, "C06.infer-cache")
 		ruleInferIndex(c, p, "C06.infer-index")
 		ruleSumOverflow(c, p, "C06.sum-overflow")
